@@ -574,6 +574,8 @@ class C07:
         "draws within 1e-9 of a CDF boundary are excluded (case regenerated with another seed): the model sums the exact float values, numpy/python sum them in floating point",
         "sample_N_outputs ignores Detector.efficiency (modelled as is); the property restricts sample_N_outputs to unit efficiency as documented",
         "Sampler.sample() returns the full state incl. herald modes without a herald check (known finding N7, modelled faithfully)",
+        "QuickSampler hands plain lists (not State objects) to the post-selection function, so predicates using State attributes (s.n_photons) raise AttributeError there; QuickSampler cases use index-based predicates and PostSelection rules only",
+        "PostSelectionFunction predicates are drawn from a small language (mode ==/>=, total ==/>=, mode-sum ==, not/and/or); the theorems quantify over every function state -> bool-or-exception",
     ]
     CHUNK = 12
 
@@ -732,8 +734,10 @@ class C07:
                     return dict(kind="stat", sub=rng.choice(["n_inputs", "n_inputs", "n_outputs", "sample"]), **cfg,
                                 det=dict(eff=rng.choice([0.3, 0.6, 0.9, 1.0]), pdark=rng.choice([0.0, 0.05, 0.3]),
                                          pc=rng.random() < 0.5),
-                                psel=None, mind=rng.choice([0, 1, 2]), n=200000, seed=100 + j)
+                                psel=None, mind=0, n=200000, seed=100 + j)
                 c = self._try(mk)
+                if c is not None:
+                    c["mind"] = g_mind(rng, c)
                 if c is not None:
                     if c["sub"] == "n_outputs":
                         c["det"]["eff"], c["det"]["pdark"] = 1.0, 0.0
@@ -853,6 +857,12 @@ class C07:
         return [({"err": r["err"]} if "err" in r else {"ok": str(r["ok"])[:60]}) for r in out]
 
     def _stat_impl(self, c):
+        try:
+            return self._stat_impl_inner(c)
+        except Exception as e:  # noqa: BLE001
+            return {"err": type(e).__name__, "msg": str(e)[:200]}
+
+    def _stat_impl_inner(self, c):
         sub, n, seed = c["sub"], c["n"], c["seed"]
         if sub == "getout":
             det = mk_detector(c["det"])
@@ -1161,6 +1171,12 @@ class C07:
 
     def _oracle_stat(self, c, obs):
         sub, n = c["sub"], c["n"]
+        if "err" in obs:
+            if sub == "n_outputs" and obs["err"] == "SamplerError":
+                items, her, _, _ = sampler_info(cfg_of(c))
+                if not ref_law_outputs(items, c["det"]["pc"], her, c["psel"], c["mind"]):
+                    return None     # nothing can be accepted: the documented error
+            return f"TEST {sub}: implementation raised {obs['err']}: {obs.get('msg')}"
         if not obs["same"]:
             return f"TEST {sub}: same seed twice gave different results"
         counts = {tuple(s): v for s, v in obs["counts"]}
